@@ -112,7 +112,10 @@ def execute(plan):
     """Run one invocation in *this* process (which is expected to be a throw-away fork).  Returns the record."""
     prepare()
     knobs = plan.get('knobs', {})
-    k = Kernel(plan.get('seed', 0), plan.get('sched'), tuple(knobs.get('cpu_cost', (1, 50))),
+    sched = plan.get('sched')
+    if sched and sched.get('preempt_p'):
+        sched = dict(sched, preempt_prefix=os.path.join(os.path.realpath(REPO), 'src', 'ssh_audit') + os.sep)
+    k = Kernel(plan.get('seed', 0), sched, tuple(knobs.get('cpu_cost', (1, 50))),
                max_events=int(knobs.get('max_events', 2_000_000)), max_vtime_s=float(knobs.get('max_vtime_s', 4 * 3600)),
                quantum_us=int(knobs.get('quantum_us', 0)))
     if knobs.get('clock_jump'):
@@ -160,6 +163,7 @@ def execute(plan):
         rec['vtime_us'] = k.now
         rec['events'] = k.events_run
         rec['switches'] = k.switches
+        rec['preemptions'] = k.preemptions
         rec['sched_trace'] = list(k.sched_trace[:512])
         rec['assignments'] = [list(e.assignments) for e in world.executors]
         rec['rand_log'] = list(world.rand.log) if world.rand else []
